@@ -27,7 +27,7 @@ macro_rules! properties {
         }
 
         pub fn meta(p: &str) -> Meta {
-            let (rule, explanation) = match p { $($id => ($m::RULE, $m::EXPLANATION),)* _ => ("", "") };
+            let (rule, explanation) = match p { $($id => ($m::RULE, $m::EXPLANATION),)* "C20" => (C20_RULE, C20_EXPLANATION), _ => ("", "") };
             Meta { rule, explanation, assumptions: COMMON_ASSUMPTIONS.to_vec() }
         }
     };
@@ -54,6 +54,11 @@ properties! {
     "C18" => c18,
     "C19" => c19,
 }
+
+// C20 lives in the probe crate (cfgprobe/), rebuilt per build configuration; its evidence is
+// assembled here
+const C20_RULE: &str = "case = (build configuration, input): Context::default() must report the configured precision and mode; sqrt / cbrt / inverse / round must equal their explicit-context forms (and the oracles) at the configured values; a / b must satisfy the division oracle at the configured precision; exp must deliver the configured number of digits; Display must switch notation exactly at the configured zero counts; {:.N} must round with the configured mode and pad up to the configured limit; non-trivial = the configured value changes the result relative to the default build (100, HalfEven, 5, 15, 1000); distinct = structural hash / enumerated tuples, summed over configurations";
+const C20_EXPLANATION: &str = "Each configuration rebuilds the library through its own build script (cfgprobe/run.sh); the probe learns the configuration from the same environment at its own compile time and, independently, from its command line (a mismatch is an infrastructure error, exit 2) - never from the library. Division is exhaustive over all numerators and denominators below 1000 when the configured precision is 1..3. Quick: 3 configurations in which every parameter differs from its default; thorough: a 24-row covering array.";
 
 pub fn selftest() -> i32 {
     0
